@@ -256,6 +256,7 @@ fn abstract_desc(d: &SessionDescription) -> Value {
             "mux": m.attributes.iter().any(|a| a.key == "rtcp-mux"),
             "setup": attr("setup").into_iter().next().unwrap_or_else(|| "none".into()),
             "port0": m.port == 0,
+            "fmts": if rtp { vec![] } else { m.formats.iter().map(|f| f.to_ascii_lowercase()).collect::<Vec<_>>() },
         }));
     }
     let bundle: Vec<String> = d
